@@ -8,6 +8,9 @@
 #include "private/implementations.h"
 #include "randombytes.h"
 #include "runtime.h"
+#ifdef SODIUM_VERIF
+# include "private/verif.h"
+#endif
 
 #include "aegis128l_soft.h"
 
@@ -17,9 +20,6 @@
 
 #if defined(HAVE_AVXINTRIN_H) && defined(HAVE_WMMINTRIN_H)
 #include "aegis128l_aesni.h"
-#ifdef SODIUM_VERIF
-# include "private/verif.h"
-#endif
 #endif
 
 static const aegis128l_implementation *implementation = &aegis128l_soft_implementation;
